@@ -11,6 +11,17 @@ var VerifGateHook func(name string)
 // VerifTraceHook receives trace events emitted at linearization points.
 var VerifTraceHook func(ev string, fields ...interface{})
 
+// VerifGateStopHook is called at named scheduling points inside loops that can
+// be stopped; it gets the server id and the loop's stop channel and may block
+// until released or until the stop channel is closed.
+var VerifGateStopHook func(name, id string, stop <-chan struct{})
+
+func verifGateStop(name, id string, stop <-chan struct{}) {
+	if h := VerifGateStopHook; h != nil {
+		h(name, id, stop)
+	}
+}
+
 func verifGate(name string) {
 	if h := VerifGateHook; h != nil {
 		h(name)
